@@ -335,7 +335,13 @@ fn cancel_faults(ctx: &Ctx, rng: &mut Rng, s: &SizeInfo, faults: &mut Vec<Fault>
     let b = rng.below(s.blocks);
     let pos = s.block_positions(b);
     let nb = pos.len();
-    let e = rng.range(2, t.min(8));
+    let mode = rng.below(3);
+    // the linear mode is cheap for any weight (favour full weight t); the determinant search is kept small
+    let e = if mode == 0 {
+        if rng.chance(1, 2) { t } else { rng.range(2, t) }
+    } else {
+        rng.range(2, t.min(8))
+    };
     let region = pick_region(rng);
     let chosen = pick_block_positions(rng, s, b, e, region, PosPattern::Uniform);
     let e = chosen.len();
@@ -358,10 +364,9 @@ fn cancel_faults(ctx: &Ctx, rng: &mut Rng, s: &SizeInfo, faults: &mut Vec<Fault>
         r
     };
     let mut ys = vec![0u8; e];
-    let mode = rng.below(3);
     if mode == 0 {
         // S_1..S_m = 0, m < e: fix the last e-m values, solve the first m
-        let m = rng.range(1, e - 1);
+        let m = if rng.chance(2, 5) { e - 1 } else { rng.range(1, e - 1) };
         for y in ys.iter_mut().skip(m) {
             *y = rng.nonzero_byte();
         }
